@@ -2,4 +2,483 @@
 import PjVerif.Spec.Render
 namespace Pj.Render
 
+/-! ### `splitFirst`, `splitAt?` on concatenations -/
+
+theorem splitFirst_append (c : Char) (a b : Str) (h : c ∉ a) : splitFirst c (a ++ c :: b) = some (a, b) := by
+  induction a with
+  | nil => simp [splitFirst]
+  | cons x xs ih =>
+    have hx : x ≠ c := fun e => h (by simp [e])
+    have hxs : c ∉ xs := fun e => h (by simp [e])
+    simp [splitFirst, hx, ih hxs]
+
+theorem splitAt?_prefix (pat b : Str) (hp : pat ≠ []) : splitAt? pat (pat ++ b) = some ([], b) := by
+  cases pat with
+  | nil => exact absurd rfl hp
+  | cons p ps =>
+    have h : (p :: ps).isPrefixOf (p :: (ps ++ b)) = true := by
+      rw [← List.cons_append, List.isPrefixOf_iff_prefix]; exact List.prefix_append _ _
+    simp only [List.cons_append, splitAt?, h, if_true]
+    simp
+
+theorem splitAt?_cons_ne (p : Char) (ps : Str) (x : Char) (xs : Str) (h : x ≠ p) :
+    splitAt? (p :: ps) (x :: xs) = (splitAt? (p :: ps) xs).map (fun q => (x :: q.1, q.2)) := by
+  have : (p :: ps).isPrefixOf (x :: xs) = false := by
+    rw [List.isPrefixOf_cons_cons]; simp [Ne.symm h]
+  simp only [splitAt?, this]; rfl
+
+/-- the pattern is found at its first occurrence when its first character does not occur before it -/
+theorem splitAt?_append (pat a b : Str) (p : Char) (hp : pat.head? = some p) (h : p ∉ a) :
+    splitAt? pat (a ++ pat ++ b) = some (a, b) := by
+  cases pat with
+  | nil => simp at hp
+  | cons p' ps =>
+    simp at hp; subst hp
+    induction a with
+    | nil => simpa using splitAt?_prefix (p' :: ps) b (by simp)
+    | cons x xs ih =>
+      have hx : x ≠ p' := fun e => h (by simp [e])
+      have hxs : p' ∉ xs := fun e => h (by simp [e])
+      have := ih hxs
+      simp only [List.cons_append, List.append_assoc] at this ⊢
+      rw [splitAt?_cons_ne _ _ _ _ hx, this]; rfl
+
+theorem splitAt?_of_eq {pat s a b : Str} (p : Char) (hs : s = a ++ pat ++ b) (hp : pat.head? = some p) (h : p ∉ a) :
+    splitAt? pat s = some (a, b) := hs ▸ splitAt?_append pat a b p hp h
+
+/-! ### `linesOf` -/
+
+def rawLines (s : Str) : List Str :=
+  s.foldr (fun c (acc : List Str) => if c == '\n' then [] :: acc else match acc with
+    | [] => [[c]]
+    | x :: xs => (c :: x) :: xs) [[]]
+
+theorem linesOf_eq (s : Str) : linesOf s = match (rawLines s).getLast? with
+    | some [] => (rawLines s).dropLast
+    | _ => rawLines s := rfl
+
+theorem rawLines_ne_nil (s : Str) : rawLines s ≠ [] := by
+  cases s with
+  | nil => simp [rawLines]
+  | cons c s =>
+    simp only [rawLines, List.foldr_cons]
+    split
+    · simp
+    · split <;> simp
+
+theorem rawLines_line (a rest : Str) (h : '\n' ∉ a) : rawLines (a ++ '\n' :: rest) = a :: rawLines rest := by
+  induction a with
+  | nil => simp [rawLines]
+  | cons x xs ih =>
+    have hx : x ≠ '\n' := fun e => h (by simp [e])
+    have hxs : '\n' ∉ xs := fun e => h (by simp [e])
+    have := ih hxs
+    unfold rawLines at this ⊢
+    simp only [List.cons_append, List.foldr_cons, this]
+    simp [hx]
+
+theorem linesOf_nil : linesOf [] = [] := by decide
+
+theorem linesOf_line (a rest : Str) (h : '\n' ∉ a) : linesOf (a ++ '\n' :: rest) = a :: linesOf rest := by
+  rw [linesOf_eq, linesOf_eq, rawLines_line a rest h]
+  have hne := rawLines_ne_nil rest
+  cases hr : rawLines rest with
+  | nil => exact absurd hr hne
+  | cons y ys =>
+    rw [List.getLast?_cons_cons, List.dropLast_cons_cons]
+    split <;> rfl
+
+theorem linesOf_flatten (ls : List Str) (h : ∀ l ∈ ls, '\n' ∉ l) :
+    linesOf ((ls.map (· ++ ['\n'])).flatten) = ls := by
+  induction ls with
+  | nil => exact linesOf_nil
+  | cons l ls ih =>
+    simp only [List.map_cons, List.flatten_cons, List.append_assoc, List.singleton_append]
+    rw [linesOf_line _ _ (h l (by simp)), ih (fun l hl => h l (by simp [hl]))]
+
+/-! ### one Gantt task line -/
+
+/-- the task line without its line break -/
+def ganttBody (t : GTask) : Str :=
+  lit "    " ++ t.name.filter (fun c => c != ':') ++ lit ": " ++ stateOf t ++ lit " id_" ++ t.idText ++ lit ", " ++ t.start ++ lit ", " ++ t.end_
+
+theorem ganttLine_eq (t : GTask) : ganttLine t = ganttBody t ++ ['\n'] := by
+  simp [ganttLine, ganttBody]
+
+theorem ganttLine_dropLast (t : GTask) : (ganttLine t).dropLast = ganttBody t := by
+  rw [ganttLine_eq]; simp
+
+theorem stateOf_cases (t : GTask) :
+    stateOf t = lit "milestone," ∨ stateOf t = lit "done," ∨ stateOf t = lit "active," ∨ stateOf t = [] := by
+  unfold stateOf; cases t.milestone <;> cases t.done <;> cases t.active <;> simp
+
+theorem blank_notin_stateOf (t : GTask) : ' ' ∉ stateOf t := by
+  rcases stateOf_cases t with h | h | h | h <;> rw [h] <;> decide
+
+theorem nul_notin_stateOf (t : GTask) : '\x00' ∉ stateOf t := by
+  rcases stateOf_cases t with h | h | h | h <;> rw [h] <;> decide
+
+theorem nl_notin_stateOf (t : GTask) : '\n' ∉ stateOf t := by
+  rcases stateOf_cases t with h | h | h | h <;> rw [h] <;> decide
+
+/-- the comma that ends the state is followed by the boundary mark, not by a blank -/
+theorem splitAt?_comma_state (t : GTask) (r : Str) :
+    splitAt? (lit ", ") (stateOf t ++ '\x00' :: r) =
+      (splitAt? (lit ", ") r).map (fun q => (stateOf t ++ '\x00' :: q.1, q.2)) := by
+  have hl : lit ", " = [',', ' '] := rfl
+  rw [hl]
+  rcases stateOf_cases t with h | h | h | h <;> rw [h] <;>
+    cases hq : splitAt? [',', ' '] r <;> simp [lit, splitAt?, List.isPrefixOf, hq]
+
+theorem readGanttLine_body (t : GTask) (hid : ',' ∉ t.idText) (hs : ',' ∉ t.start) :
+    readGanttLine (ganttBody t) = some (expectedGantt t) := by
+  have hcolon : ':' ∉ t.name.filter (fun c => c != ':') := by simp
+  have h1 : startsWith (lit "    ") (ganttBody t) = true := by simp [startsWith, ganttBody, lit]
+  have h2 : (ganttBody t).drop 4 = t.name.filter (fun c => c != ':') ++ ':' ::
+      (' ' :: (stateOf t ++ lit " id_" ++ (t.idText ++ lit ", " ++ (t.start ++ lit ", " ++ t.end_)))) := by
+    simp [ganttBody, lit]
+  have h3 := splitFirst_append ':' _ (' ' :: (stateOf t ++ lit " id_" ++ (t.idText ++ lit ", " ++ (t.start ++ lit ", " ++ t.end_)))) hcolon
+  have h4 := splitAt?_append (lit " id_") (stateOf t) (t.idText ++ lit ", " ++ (t.start ++ lit ", " ++ t.end_)) ' ' rfl
+    (blank_notin_stateOf t)
+  have h5 := splitAt?_append (lit ", ") t.idText (t.start ++ lit ", " ++ t.end_) ',' rfl hid
+  have h6 := splitAt?_append (lit ", ") t.start t.end_ ',' rfl hs
+  have h7 := splitFirst_append '\x00' (stateOf t) t.idText (nul_notin_stateOf t)
+  have h8 : lit "\x00" = ['\x00'] := rfl
+  simp only [List.append_assoc] at h4 h5 h6
+  simp only [readGanttLine, h1, h2, h3]
+  simp [startsWith, h8, h4, splitAt?_comma_state, h5, h6, h7, expectedGantt]
+
+
+/-! ### the Gantt source as a list of lines -/
+
+def ganttHeader (title : Option Str) (weekends : Bool) (tick : Option Str) : List Str :=
+  [lit "gantt", lit "  dateFormat DD.MM.YYYY HH:mm"] ++
+  (match title with | some t => [lit "  title " ++ t] | none => []) ++
+  (if weekends then [lit "  excludes weekends"] else []) ++
+  (match tick with | some t => if t.isEmpty then [] else [lit "  tickInterval " ++ t] | none => [])
+
+def withNl (ls : List Str) : Str := (ls.map (· ++ ['\n'])).flatten
+
+theorem withNl_append (a b : List Str) : withNl (a ++ b) = withNl a ++ withNl b := by simp [withNl]
+theorem withNl_cons (a : Str) (b : List Str) : withNl (a :: b) = a ++ '\n' :: withNl b := by simp [withNl]
+theorem withNl_nil : withNl [] = [] := rfl
+
+theorem linesOf_withNl (ls : List Str) (h : ∀ l ∈ ls, '\n' ∉ l) : linesOf (withNl ls) = ls := linesOf_flatten ls h
+
+theorem withNl_ganttBody (tasks : List GTask) : (tasks.map ganttLine).flatten = withNl (tasks.map ganttBody) := by
+  induction tasks with
+  | nil => rfl
+  | cons t ts ih => simp [withNl_cons, ganttLine_eq, ih]
+
+def sectionLine (k : Str) : Str := lit "  section " ++ k
+
+def sectionBlock (tasks : List GTask) (k : Str) : List Str :=
+  sectionLine k :: (tasks.filter (fun t => sectionOf t == k)).map ganttBody
+
+theorem withNl_sections (tasks : List GTask) (secs : List Str) :
+    (secs.map (fun k => lit "  section " ++ k ++ ['\n'] ++ ((tasks.filter (fun t => sectionOf t == k)).map ganttLine).flatten)).flatten
+      = withNl (secs.flatMap (sectionBlock tasks)) := by
+  induction secs with
+  | nil => rfl
+  | cons k ks ih =>
+    rw [List.map_cons, List.flatten_cons, ih, List.flatMap_cons, withNl_append, sectionBlock, withNl_cons,
+      withNl_ganttBody, sectionLine]
+    simp
+
+theorem ganttSrc_eq (title : Option Str) (weekends : Bool) (tick : Option Str) (tasks : List GTask) :
+    ganttSrc title weekends tick tasks =
+      if ((tasks.map sectionOf).eraseDups.length == 1 || (tasks.map sectionOf).eraseDups.isEmpty) = true then
+        withNl (ganttHeader title weekends tick ++ tasks.map ganttBody)
+      else withNl (ganttHeader title weekends tick ++ (tasks.map sectionOf).eraseDups.flatMap (sectionBlock tasks)) := by
+  have key : ∀ (H H' A A' B B' : Str) (c : Prop) [Decidable c], H = H' → A = A' → B = B' →
+      (if c then H ++ A else H ++ B) = (if c then H' ++ A' else H' ++ B') := by
+    intro H H' A A' B B' c _ h1 h2 h3; subst h1 h2 h3; rfl
+  unfold ganttSrc
+  simp only [withNl_append]
+  refine key _ _ _ _ _ _ _ ?_ (withNl_ganttBody tasks) (withNl_sections tasks _)
+  cases title <;> cases weekends <;> cases tick <;> simp [ganttHeader, withNl, lit] <;> split <;> simp
+
+/-! ### reading the Gantt lines -/
+
+abbrev GAcc := Option Str × List (Option Str × GEntry)
+
+def gstep (acc : GAcc) (l : Str) : GAcc :=
+  if startsWith (lit "  section ") l then (some (l.drop 10), acc.2)
+  else match readGanttLine l with
+    | some e => (acc.1, acc.2 ++ [(acc.1, e)])
+    | none => acc
+
+theorem readGantt_eq (src : Str) : readGantt src = ((linesOf src).foldl gstep (none, [])).2 := rfl
+
+/-- the conditions on a task under which its line is a single line that reads back -/
+def GOk (t : GTask) : Prop := '\n' ∉ t.name ∧ ',' ∉ t.idText ∧ '\n' ∉ t.idText ∧ ',' ∉ t.start ∧ '\n' ∉ t.start ∧ '\n' ∉ t.end_
+
+theorem ganttBody_oneLine (t : GTask) (h : GOk t) : '\n' ∉ ganttBody t := by
+  obtain ⟨h1, h2, h3, h4, h5, h6⟩ := h
+  have := nl_notin_stateOf t
+  simp [ganttBody, lit, *]
+
+theorem ganttHeader_oneLine (title : Option Str) (weekends : Bool) (tick : Option Str)
+    (ht : ∀ x, title = some x → '\n' ∉ x) (hk : ∀ x, tick = some x → '\n' ∉ x) :
+    ∀ l ∈ ganttHeader title weekends tick, '\n' ∉ l := by
+  intro l hl
+  simp only [ganttHeader, List.mem_append] at hl
+  rcases hl with ((hl | hl) | hl) | hl
+  · simp at hl; rcases hl with rfl | rfl <;> decide
+  · cases title with
+    | none => simp at hl
+    | some x => simp at hl; subst hl; have := ht x rfl; simp [lit, this]
+  · cases weekends <;> simp at hl; subst hl; decide
+  · cases tick with
+    | none => simp at hl
+    | some x =>
+      simp at hl; obtain ⟨_, rfl⟩ := hl
+      have := hk x rfl; simp [lit, this]
+
+theorem gstep_header (title : Option Str) (weekends : Bool) (tick : Option Str) (acc : GAcc) :
+    ∀ l ∈ ganttHeader title weekends tick, gstep acc l = acc := by
+  intro l hl
+  have key : startsWith (lit "  section ") l = false ∧ startsWith (lit "    ") l = false := by
+    simp only [ganttHeader, List.mem_append] at hl
+    rcases hl with ((hl | hl) | hl) | hl
+    · simp at hl; rcases hl with rfl | rfl <;> decide
+    · cases title with
+      | none => simp at hl
+      | some x => simp at hl; subst hl; simp [lit, startsWith, List.isPrefixOf]
+    · cases weekends <;> simp at hl; subst hl; decide
+    · cases tick with
+      | none => simp at hl
+      | some x => simp at hl; obtain ⟨_, rfl⟩ := hl; simp [lit, startsWith, List.isPrefixOf]
+  simp [gstep, key.1, readGanttLine, key.2]
+
+theorem gstep_section (acc : GAcc) (k : Str) : gstep acc (sectionLine k) = (some k, acc.2) := by
+  simp [gstep, sectionLine, lit, startsWith]
+
+theorem gstep_task (acc : GAcc) (t : GTask) (h : GOk t) :
+    gstep acc (ganttBody t) = (acc.1, acc.2 ++ [(acc.1, expectedGantt t)]) := by
+  have h1 : startsWith (lit "  section ") (ganttBody t) = false := by simp [ganttBody, lit, startsWith, List.isPrefixOf]
+  simp [gstep, h1, readGanttLine_body t h.2.1 h.2.2.2.1]
+
+theorem foldl_gstep_header (title : Option Str) (weekends : Bool) (tick : Option Str) (acc : GAcc) (ls : List Str)
+    (h : ∀ l ∈ ls, l ∈ ganttHeader title weekends tick) : ls.foldl gstep acc = acc := by
+  induction ls with
+  | nil => rfl
+  | cons l ls ih =>
+    rw [List.foldl_cons, gstep_header title weekends tick acc l (h l (by simp))]
+    exact ih (fun l hl => h l (by simp [hl]))
+
+theorem foldl_gstep_tasks (acc : GAcc) (ts : List GTask) (h : ∀ t ∈ ts, GOk t) :
+    (ts.map ganttBody).foldl gstep acc = (acc.1, acc.2 ++ ts.map (fun t => (acc.1, expectedGantt t))) := by
+  induction ts generalizing acc with
+  | nil => simp
+  | cons t ts ih =>
+    rw [List.map_cons, List.foldl_cons, gstep_task acc t (h t (by simp)), ih _ (fun t ht => h t (by simp [ht]))]
+    simp
+
+theorem foldl_gstep_sections (tasks : List GTask) (h : ∀ t ∈ tasks, GOk t) (acc : GAcc) (ks : List Str) :
+    (((ks.flatMap (sectionBlock tasks)).foldl gstep acc).2).map (·.2) =
+      acc.2.map (·.2) ++ ks.flatMap (fun k => (tasks.filter (fun t => sectionOf t == k)).map expectedGantt) := by
+  induction ks generalizing acc with
+  | nil => simp
+  | cons k ks ih =>
+    rw [List.flatMap_cons, List.foldl_append, sectionBlock, List.foldl_cons, gstep_section,
+      foldl_gstep_tasks _ _ (fun t ht => h t (List.mem_filter.1 ht).1), ih]
+    simp [Function.comp_def]
+
+/-! ### grouping by `eraseDups` keys is a permutation -/
+
+theorem flatMap_congr_mem {α β} (l : List α) (f g : α → List β) (h : ∀ a ∈ l, f a = g a) :
+    l.flatMap f = l.flatMap g := by
+  induction l with
+  | nil => rfl
+  | cons a l ih =>
+    rw [List.flatMap_cons, List.flatMap_cons, h a (by simp), ih (fun a ha => h a (by simp [ha]))]
+
+theorem eraseDups_groups_perm {α β} [BEq β] [LawfulBEq β] (f : α → β) :
+    ∀ (n : Nat) (l : List α), l.length ≤ n →
+      ((l.map f).eraseDups.flatMap (fun k => l.filter (fun t => f t == k))).Perm l := by
+  intro n
+  induction n with
+  | zero =>
+    intro l hl
+    have : l = [] := List.length_eq_zero_iff.1 (by omega)
+    subst this; simp
+  | succ n ih =>
+    intro l hl
+    cases l with
+    | nil => simp
+    | cons a l =>
+      have hlen : (l.filter (fun t => !(f t == f a))).length ≤ n := by
+        have := List.length_filter_le (fun t => !(f t == f a)) l
+        simp at hl; omega
+      have hih := ih _ hlen
+      rw [List.map_cons, List.eraseDups_cons, List.flatMap_cons, List.filter_map]
+      have hfirst : (a :: l).filter (fun t => f t == f a) = a :: l.filter (fun t => f t == f a) := by simp
+      have hsecond : ((l.filter ((fun b => !(b == f a)) ∘ f)).map f).eraseDups.flatMap
+            (fun k => (a :: l).filter (fun t => f t == k)) =
+          ((l.filter (fun t => !(f t == f a))).map f).eraseDups.flatMap
+            (fun k => (l.filter (fun t => !(f t == f a))).filter (fun t => f t == k)) := by
+        apply flatMap_congr_mem
+        intro k hk
+        rw [List.mem_eraseDups, List.mem_map] at hk
+        obtain ⟨t, ht, rfl⟩ := hk
+        have hne : (f t == f a) = false := by simpa using (List.mem_filter.1 ht).2
+        have hne' : (f a == f t) = false := by
+          rw [beq_eq_false_iff_ne] at hne ⊢; exact Ne.symm hne
+        rw [List.filter_cons, hne', List.filter_filter]
+        simp only [Bool.false_eq_true, if_false]
+        apply List.filter_congr
+        intro x _
+        by_cases hx : f x == f t
+        · have : f x = f t := by simpa using hx
+          simp [this, hne]
+        · simp [hx]
+      rw [hfirst, hsecond]
+      refine (List.Perm.cons a ?_)
+      refine (List.Perm.append (List.Perm.refl _) hih).trans ?_
+      exact List.filter_append_perm _ l
+
+theorem eraseDups_const {α} [BEq α] [LawfulBEq α] (a : α) (l : List α) (h : ∀ x ∈ l, x = a) :
+    l.eraseDups = [] ∨ l.eraseDups = [a] := by
+  cases l with
+  | nil => simp
+  | cons x xs =>
+    right
+    have hx := h x (by simp)
+    subst hx
+    have : xs.filter (fun b => !(b == x)) = [] := by
+      rw [List.filter_eq_nil_iff]; intro y hy; simp [h y (by simp [hy])]
+    rw [List.eraseDups_cons, this]; simp
+
+/-! ### reading the whole Gantt source -/
+
+theorem sectionLine_oneLine (k : Str) (h : '\n' ∉ k) : '\n' ∉ sectionLine k := by
+  simp [sectionLine, lit, h]
+
+theorem readGantt_flat (title : Option Str) (weekends : Bool) (tick : Option Str) (tasks : List GTask)
+    (ht : ∀ x, title = some x → '\n' ∉ x) (hk : ∀ x, tick = some x → '\n' ∉ x) (h : ∀ t ∈ tasks, GOk t) :
+    (readGantt (withNl (ganttHeader title weekends tick ++ tasks.map ganttBody))).map (·.2) = tasks.map expectedGantt := by
+  rw [readGantt_eq, linesOf_withNl, List.foldl_append, foldl_gstep_header title weekends tick _ _ (fun l hl => hl),
+    foldl_gstep_tasks _ _ h]
+  · simp [Function.comp_def]
+  · intro l hl
+    rcases List.mem_append.1 hl with hl | hl
+    · exact ganttHeader_oneLine title weekends tick ht hk l hl
+    · obtain ⟨t, ht', rfl⟩ := List.mem_map.1 hl
+      exact ganttBody_oneLine t (h t ht')
+
+theorem readGantt_sections (title : Option Str) (weekends : Bool) (tick : Option Str) (tasks : List GTask) (secs : List Str)
+    (ht : ∀ x, title = some x → '\n' ∉ x) (hk : ∀ x, tick = some x → '\n' ∉ x) (h : ∀ t ∈ tasks, GOk t)
+    (hsecs : ∀ k ∈ secs, '\n' ∉ k) :
+    (readGantt (withNl (ganttHeader title weekends tick ++ secs.flatMap (sectionBlock tasks)))).map (·.2) =
+      secs.flatMap (fun k => (tasks.filter (fun t => sectionOf t == k)).map expectedGantt) := by
+  rw [readGantt_eq, linesOf_withNl, List.foldl_append, foldl_gstep_header title weekends tick _ _ (fun l hl => hl),
+    foldl_gstep_sections tasks h]
+  · simp
+  · intro l hl
+    rcases List.mem_append.1 hl with hl | hl
+    · exact ganttHeader_oneLine title weekends tick ht hk l hl
+    · obtain ⟨k, hk', hl⟩ := List.mem_flatMap.1 hl
+      rw [sectionBlock, List.mem_cons] at hl
+      rcases hl with rfl | hl
+      · exact sectionLine_oneLine k (hsecs k hk')
+      · obtain ⟨t, ht', rfl⟩ := List.mem_map.1 hl
+        exact ganttBody_oneLine t (h t (List.mem_filter.1 ht').1)
+
+theorem readGantt_perm (title : Option Str) (weekends : Bool) (tick : Option Str) (tasks : List GTask)
+    (ht : ∀ x, title = some x → '\n' ∉ x) (hk : ∀ x, tick = some x → '\n' ∉ x) (h : ∀ t ∈ tasks, GOk t)
+    (hsecs : ∀ t ∈ tasks, '\n' ∉ sectionOf t) :
+    ((readGantt (ganttSrc title weekends tick tasks)).map (·.2)).Perm (tasks.map expectedGantt) := by
+  rw [ganttSrc_eq]
+  split
+  · rw [readGantt_flat title weekends tick tasks ht hk h]
+  · rw [readGantt_sections title weekends tick tasks _ ht hk h]
+    · have := (eraseDups_groups_perm sectionOf tasks.length tasks (Nat.le_refl _)).map expectedGantt
+      rw [List.map_flatMap] at this
+      exact this
+    · intro k hk'
+      rw [List.mem_eraseDups, List.mem_map] at hk'
+      obtain ⟨t, ht', rfl⟩ := hk'
+      exact hsecs t ht'
+
+theorem readGantt_noSections (title : Option Str) (weekends : Bool) (tick : Option Str) (tasks : List GTask)
+    (hsec : ∀ t ∈ tasks, t.sect = none)
+    (ht : ∀ x, title = some x → '\n' ∉ x) (hk : ∀ x, tick = some x → '\n' ∉ x) (h : ∀ t ∈ tasks, GOk t) :
+    (readGantt (ganttSrc title weekends tick tasks)).map (·.2) = tasks.map expectedGantt := by
+  have hc := eraseDups_const ['-'] (tasks.map sectionOf) (by
+    intro x hx
+    obtain ⟨t, ht', rfl⟩ := List.mem_map.1 hx
+    simp [sectionOf, hsec t ht'])
+  rw [ganttSrc_eq, if_pos (by rcases hc with hc | hc <;> simp [hc])]
+  exact readGantt_flat title weekends tick tasks ht hk h
+
+/-! ### the network source -/
+
+def qname (s : Str) : Str := s.filter (fun c => c != '"')
+
+theorem nodeLabel_eq (idt name : Str) : nodeLabel idt name = idt ++ lit "{{" ++ (qname name ++ lit "}}") := by
+  simp [nodeLabel, qname]
+
+/-- ids made of digits and '-' contain no brace, bracket, blank or line break -/
+def IdOk (s : Str) : Prop := (∀ c ∈ s, c.isDigit ∨ c = '-') ∧ s ≠ []
+
+theorem IdOk.notin {s : Str} (h : IdOk s) (c : Char) (hc : c.isDigit = false) (hc' : c ≠ '-') : c ∉ s := by
+  intro hm
+  rcases h.1 c hm with h1 | h1
+  · rw [hc] at h1; cases h1
+  · exact hc' h1
+
+def NameOk (s : Str) : Prop := '\n' ∉ s ∧ '{' ∉ s ∧ '}' ∉ s
+
+theorem NameOk.qname {s : Str} (h : NameOk s) : '\n' ∉ qname s ∧ '{' ∉ qname s ∧ '}' ∉ qname s := by
+  obtain ⟨h1, h2, h3⟩ := h
+  simp [Pj.Render.qname, List.mem_filter, h1, h2, h3]
+
+theorem readNode_label (idt name : Str) (hi : IdOk idt) (hn : NameOk name) :
+    readNode (nodeLabel idt name) = some (.task idt (qname name)) := by
+  have hq := hn.qname
+  have h0 : (nodeLabel idt name == lit "0((Start))") = false := by
+    rw [beq_eq_false_iff_ne]
+    intro he
+    have : '{' ∈ nodeLabel idt name := by simp [nodeLabel, lit]
+    rw [he] at this
+    revert this; decide
+  have h1 := splitAt?_append (lit "{{") idt (qname name ++ lit "}}") '{' rfl (hi.notin '{' (by decide) (by decide))
+  have h2 := splitAt?_append (lit "}}") (qname name) [] '}' rfl hq.2.2
+  rw [List.append_nil] at h2
+  rw [← nodeLabel_eq] at h1
+  simp [readNode, h0, h1, h2]
+
+/-- the lines written for one task -/
+def edgeLines (all : Nat → NTask) (i : Nat) : List Str :=
+  if (all i).preds.isEmpty then [lit "  0((Start)) --> " ++ nodeLabel (all i).idText (all i).name]
+  else (all i).preds.map (fun p => lit "  " ++ nodeLabel (all p).idText (all p).name ++ lit " --> " ++ nodeLabel (all i).idText (all i).name)
+
+theorem networkSrc_eq (all : Nat → NTask) (tasks : List Nat) (hst : ∀ i ∈ tasks, (all i).style = none) :
+    networkSrc all tasks = withNl (lit "flowchart LR" :: tasks.flatMap (edgeLines all)) := by
+  have h2 : ∀ ts : List Nat, (ts.map (fun i =>
+      let t := all i
+      if t.preds.isEmpty then lit "  0((Start)) --> " ++ nodeLabel t.idText t.name ++ ['\n']
+      else (t.preds.map (fun p => lit "  " ++ nodeLabel (all p).idText (all p).name ++ lit " --> " ++ nodeLabel t.idText t.name ++ ['\n'])).flatten)).flatten
+      = withNl (ts.flatMap (edgeLines all)) := by
+    intro ts
+    induction ts with
+    | nil => rfl
+    | cons i ts ih =>
+      rw [List.map_cons, List.flatten_cons, ih, List.flatMap_cons, withNl_append]
+      congr 1
+      simp only [edgeLines]
+      split
+      · simp [withNl]
+      · simp [withNl, Function.comp_def]
+  have key : ∀ B C B' : Str, C = [] → B = B' → lit "flowchart LR\n" ++ B ++ C = lit "flowchart LR" ++ '\n' :: B' := by
+    intro B C B' h1 h2; subst h1 h2; simp [lit]
+  unfold networkSrc
+  rw [withNl_cons]
+  refine key _ _ _ ?_ (h2 tasks)
+  rw [List.flatten_eq_nil_iff]
+  intro l hl
+  obtain ⟨i, hi, rfl⟩ := List.mem_map.1 hl
+  simp only [hst i hi]
+
 end Pj.Render
